@@ -657,6 +657,10 @@ func genHonest(c *core.Ctx) error {
 		{"server-nil-vs-defaults", []string{"FS", "KERBEROS", "CLAIMTOBE"}, nil},
 		{"client-all-unimplemented", []string{"PASSWORD", "BOGUS"}, []string{"FS", "PASSWORD", "CLAIMTOBE"}},
 		{"duplicates-both-sides", []string{"CLAIMTOBE", "CLAIMTOBE", "FS", "FS"}, []string{"FS", "FS", "CLAIMTOBE", "CLAIMTOBE"}},
+		// the one common method named twice by the client: its bit must
+		// still be offered exactly as that bit
+		{"client-names-common-method-twice", []string{"CLAIMTOBE", "CLAIMTOBE"}, []string{"CLAIMTOBE"}},
+		{"client-names-fs-twice", []string{"FS", "PASSWORD", "FS"}, []string{"FS", "FS"}},
 	}
 	cshapes := []mshape{
 		{"common", []string{"AES"}, []string{"AES"}},
